@@ -114,7 +114,7 @@ Record construct := { k_builder : string; k_key : string; k_hrow : nat; k_hcol :
 (* true = what the code does, false = what the property demands *)
 Record lquirks := {
   q_rs_chain_start         : bool;  (* unwrap / clone: a method call is reported where its receiver chain starts *)
-  q_ts_arrow_node_start    : bool;  (* nesting TypeScript: `const g =` / `  (a) => {` is reported where the arrow function starts,
+  q_ts_arrow_node_start    : bool;  (* nesting and CQS on TypeScript: `const g =` / `  (a) => {` is reported where the arrow function starts,
                                       one line below the declaration that carries the quoted name *)
   q_ts_console_chain_start : bool;  (* console.<m>() is reported where `console` stands, not where `.<m>(` is *)
   q_fh_header_relative     : bool;  (* file-header: temporal language is numbered inside the header text, not in the file *)
@@ -124,7 +124,7 @@ Definition loc_ideal : lquirks := Build_lquirks false false false false false.
 
 Definition use_node (q : lquirks) (b : string) : bool :=
   if String.eqb b "unwrap" || String.eqb b "clone" then q_rs_chain_start q
-  else if String.eqb b "nesting.ts" then q_ts_arrow_node_start q
+  else if String.eqb b "nesting.ts" || String.eqb b "cqs.ts" then q_ts_arrow_node_start q
   else if String.eqb b "print.ts" then q_ts_console_chain_start q
   else if String.eqb b "file-header.atemporal" then q_fh_header_relative q
   else false.
